@@ -246,6 +246,7 @@ func cmdRun(argv []string) {
 	paramsFlag := fs.String("params", "", "override: single case, comma separated ints")
 	fs.BoolVar(&verbose, "v", false, "verbose")
 	fs.BoolVar(&stopFirst, "first", false, "stop a case at its first violation")
+	fs.IntVar(&maxViol, "maxviol", 12, "violations recorded per case")
 	fs.StringVar(&fallbackSolver, "fallback", "cvc5", "second solver asked when the first answers unknown (empty: none)")
 	fs.Parse(argv)
 	t0 := time.Now()
@@ -446,6 +447,7 @@ func cmdRun(argv []string) {
 
 var engineErrors []string
 var stopFirst bool
+var maxViol = 12
 var overrides = map[string]*ssa.Function{}
 
 func mergeStats(dst, src *Stats) {
@@ -593,10 +595,10 @@ func runCase(spec Spec, params []int64, sv *Solver, res *ShardResult) CaseResult
 		}
 		for _, v := range in.curViolations {
 			key := v.Msg + "|" + v.Site
-			if seenViol[key] && len(cr.Violations) >= 3 {
+			if seenViol[key] && len(cr.Violations) >= maxViol/4 {
 				continue
 			}
-			if len(cr.Violations) >= 12 {
+			if len(cr.Violations) >= maxViol {
 				continue
 			}
 			seenViol[key] = true
